@@ -407,7 +407,7 @@ fn case_from(v: &Value) -> Result<IterCase, String> {
 }
 
 fn worker(ctx: &WorkerCtx) -> Result<(), Fail> {
-    run_proptest(ctx, 10, ctx.share(ctx.tier.pick(300_000, 15_000_000)), strategy(), case_json, |c, st| interpret(c, false, st).map(|_| ()))
+    run_proptest(ctx, 10, ctx.share(ctx.tier.pick(600_000, 15_000_000)), strategy(), case_json, |c, st| interpret(c, false, st).map(|_| ()))
 }
 
 /// replay is strict: no fork for finding (i), and a divergence after a mid-promotion op is
